@@ -232,7 +232,10 @@ func (x *Exec) builtinExtern(st *State, key string, c *ssa.CallCommon, a []*Val,
 		return scalar(tArith("+", T(0), T(1)), rt), true, nil
 	case "time.(Time).Sub":
 		use()
-		return scalar(tArith("-", T(0), T(1)), rt), true, nil
+		// Sub saturates: a difference outside the Duration range is reported as the nearest representable Duration
+		d := tArith("-", T(0), T(1))
+		lo, hi := intLitStr("-9223372036854775808"), intLitStr("9223372036854775807")
+		return scalar(tIte(tCmp(">", d, hi), hi, tIte(tCmp("<", d, lo), lo, d)), rt), true, nil
 	case "time.(Time).UTC", "time.(Time).Local", "time.(Time).Round", "time.(Time).Truncate":
 		if key == "time.(Time).UTC" || key == "time.(Time).Local" {
 			use()
